@@ -71,7 +71,10 @@ MODS = ['html_quote', 'url_quote', 'url_quote_plus', 'url_unquote',
 TEXTS = ['abc def ghi', 'abcdefgh ij', 'ab cdefghij', 'abcdefghij',
          'abcd efgh', "it's", 'a_b_c', '1234567', '1234567.891',
          '%41%2541+x y', 'a\x00b\x1ac\rd\ne', 'MiXed caSe', '', '\xe9 €<&',
-         'AT&T rocks on', 'x&amp;y &#39;z&lt']
+         'AT&T rocks on', 'x&amp;y &#39;z&lt',
+         # white space other than the blank is not a place to cut at
+         'ab cdef\tgh\nij', 'abcdefg\thi jk', 'abcd\xa0ef\u3000gh',
+         'a b\x0bcd\x0cefg\rhi']
 PERM_VALUES = ["a_b %41%2541+'x\ny 1234567.5 Cd<", '%2541%253C 9999',
                'plain', '']
 
